@@ -483,7 +483,7 @@ func (g *gen) scenarioAppendCrash(idx int) {
 		}
 		pts = append(pts, cp{total, false, false})
 		if rollover {
-			pts = append(pts, cp{total, true, false}, cp{total, true, true})
+			pts = append(pts, cp{total, true, false}, cp{total, false, true}, cp{total, true, true})
 			r.Hit("dp:rollover-during-crashed-append")
 		} else {
 			pts = append(pts, cp{total, false, true})
@@ -1108,4 +1108,15 @@ func Run(r *hk.Run) {
 	}
 	g.scenarioMalformed()
 	g.probes()
+	// run-time side of the extracted orders (index.Set after the bytes are written; CommitBatch after the
+	// pack record was rewritten)
+	r.Res.Histogram["observed:index-set-after-bytes-in-pack"] = probe.setAfterBytes
+	r.Res.Histogram["observed:remove-commit-after-pack-rewrite"] = probe.commitAfterRewrite
+	if probe.setBeforeBytes > 0 {
+		r.Fail("dp-index-row-set-before-bytes-written", fmt.Sprintf("%d index.Set calls found the pack file shorter than the row's extent", probe.setBeforeBytes), "0", fmt.Sprint(probe.setBeforeBytes), nil)
+	}
+	if probe.commitBeforeWrite > 0 {
+		// only where delete() returned early (a row that points at bytes that are not a header)
+		r.Res.Histogram["observed:remove-commit-without-pack-rewrite"] = probe.commitBeforeWrite
+	}
 }
